@@ -697,7 +697,11 @@ def _canonical_statements(tree: ast.AST):
                         if isinstance(st, ast.Assign) and len(st.targets) == 1 and isinstance(st.value, ast.BinOp) and \
                                 isinstance(st.targets[0], (ast.Name, ast.Subscript, ast.Attribute)) and \
                                 ast.dump(_as_load(st.targets[0])) == ast.dump(st.value.left) and getattr(st, "ann", None) is None:
-                            out.append(ast.copy_location(ast.AugAssign(target=st.targets[0], op=st.value.op, value=st.value.right), st))
+                            # one node shape for `x = x op y` and `x op= y`; the mark keeps what differs between them: the plain form binds a
+                            # new object, it never updates in place the object x referred to (pgstat/flow.py reads the mark)
+                            aug = ast.copy_location(ast.AugAssign(target=st.targets[0], op=st.value.op, value=st.value.right), st)
+                            aug.rebinds = True
+                            out.append(aug)
                             i += 1
                             continue
                         # v = E ; return v
@@ -709,7 +713,7 @@ def _canonical_statements(tree: ast.AST):
                             continue
                         # x = [] / list() / set() ; nest of for / if / guard-continue ending in x.append(e) / x.add(e)   ->  comprehension
                         comp = _collecting_nest(st, nxt)
-                        if comp is not None:
+                        if comp is not None and _loop_targets_dead_outside(fn, nxt):
                             out.append(comp)
                             i += 2
                             continue
@@ -722,7 +726,7 @@ def _canonical_statements(tree: ast.AST):
                                 len(nxt.body[0].value.args) == 1 and not nxt.body[0].value.keywords:
                             x = st.targets[0].id
                             e = nxt.body[0].value.args[0]
-                            if x not in _names_in(e) and x not in _names_in(nxt.iter) and x not in _names_in(nxt.target):
+                            if x not in _names_in(e) and x not in _names_in(nxt.iter) and x not in _names_in(nxt.target) and _loop_targets_dead_outside(fn, nxt):
                                 comp = ast.ListComp(elt=e, generators=[ast.comprehension(target=nxt.target, iter=nxt.iter, ifs=[], is_async=0)])
                                 out.append(ast.copy_location(ast.Assign(targets=[st.targets[0]], value=ast.copy_location(comp, nxt)), st))
                                 i += 2
@@ -964,6 +968,51 @@ def _keywords_to_positional(tree: ast.AST, sigs: Dict[str, List[str]]):
             moved += 1
 
 
+_MAPPING_FIELDS = ("_annotations",)       # record fields known to hold a mapping (annotator -> units)
+
+
+def _keys_loops_to_items(tree: ast.AST):
+    """`for k in E:` / `for k in E.keys():` over a mapping-valued record field E, k a plain name the body does not rebind, E neither stored into, deleted
+    from, called on, nor handed to a call inside the body: each `E[k]` read in the body is the value the mapping pairs with k, which is what
+    `for k, k__value in E.items():` binds.  Rewritten to the items form with `E[k]` replaced."""
+    for fn in [n for n in ast.walk(tree) if isinstance(n, (ast.FunctionDef, ast.AsyncFunctionDef))]:
+        for loop in [n for n in ast.walk(fn) if isinstance(n, ast.For)]:
+            it = loop.iter
+            E = it.func.value if isinstance(it, ast.Call) and isinstance(it.func, ast.Attribute) and it.func.attr == "keys" and not it.args and not it.keywords else it
+            if not (isinstance(E, ast.Attribute) and E.attr in _MAPPING_FIELDS and isinstance(loop.target, ast.Name)):
+                continue
+            k, etxt = loop.target.id, ast.unparse(E)
+            body = [x for b in loop.body for x in ast.walk(b)]
+            if any(isinstance(x, ast.Name) and x.id == k and not isinstance(x.ctx, ast.Load) for x in body):
+                continue
+            reads, ok = [], True
+            consumed = set()
+            for x in body:
+                if isinstance(x, ast.Subscript) and ast.unparse(x.value) == etxt:
+                    if isinstance(x.ctx, ast.Load) and isinstance(x.slice, ast.Name) and x.slice.id == k:
+                        reads.append(x)
+                        consumed.add(id(x.value))
+                    else:
+                        ok = False
+            for x in body:
+                if isinstance(x, ast.Attribute) and ast.unparse(x) == etxt and id(x) not in consumed:
+                    ok = False          # any other use of the mapping inside the body (a call on it, an argument, another subscript)
+            if not ok or not reads:
+                continue
+            vname = f"{k}__value"
+            if any(isinstance(x, ast.Name) and x.id == vname for x in ast.walk(fn)):
+                continue
+            for r in reads:
+                r.__class__ = ast.Name
+                r.__dict__.pop("value", None)
+                r.__dict__.pop("slice", None)
+                r.id = vname
+                r.ctx = ast.Load()
+            loop.iter = ast.copy_location(ast.Call(func=ast.Attribute(value=E, attr="items", ctx=ast.Load()), args=[], keywords=[]), it)
+            loop.target = ast.copy_location(ast.Tuple(elts=[ast.Name(id=k, ctx=ast.Store()), ast.Name(id=vname, ctx=ast.Store())], ctx=ast.Store()), loop.target)
+            ast.fix_missing_locations(loop)
+
+
 def _flag_loops_to_for_else(tree: ast.AST):
     """`flag = <b>` immediately before a for / while loop without else, every `break` of that loop immediately preceded by `flag = <not b>` (and
     that assignment nowhere else), `if flag: S` (b True) / `if not flag: S` (b False) without else immediately after the loop, flag read nowhere
@@ -1087,6 +1136,216 @@ def _function_refs_to_lambdas(tree: ast.AST):
                 for k in c.keywords:
                     if k.arg == "key" and isinstance(k.value, ast.Name) and k.value.id in simple and k.value.id not in local and fn.name != k.value.id:
                         k.value = ast.copy_location(_copy.deepcopy(simple[k.value.id]), k.value)
+    ast.fix_missing_locations(tree)
+
+
+_HIGHER_ORDER_FIRST = ("filter", "map", "functools.reduce", "reduce", "itertools.filterfalse", "itertools.takewhile", "itertools.dropwhile", "itertools.starmap")
+
+
+def _operator_getters_to_lambdas(tree: ast.AST):
+    """`operator.itemgetter(<one constant>)` / `operator.attrgetter("<plain name>")` handed element-wise to a builtin higher-order function or as a
+    sort key is `lambda x: x[c]` / `lambda x: x.name`.  The names must be the ones imported from `operator` in this module and bound nowhere else."""
+    if not isinstance(tree, ast.Module):
+        return
+    getters: Dict[str, str] = {}       # local spelling -> itemgetter | attrgetter
+    for s in tree.body:
+        if isinstance(s, ast.ImportFrom) and s.module == "operator" and s.level == 0:
+            for al in s.names:
+                if al.name in ("itemgetter", "attrgetter"):
+                    getters[al.asname or al.name] = al.name
+        elif isinstance(s, ast.Import):
+            for al in s.names:
+                if al.name == "operator":
+                    getters[f"{al.asname or al.name}.itemgetter"] = "itemgetter"
+                    getters[f"{al.asname or al.name}.attrgetter"] = "attrgetter"
+    if not getters:
+        return
+    stored = {x.id for x in ast.walk(tree) if isinstance(x, ast.Name) and isinstance(x.ctx, (ast.Store, ast.Del))} | \
+        {a.arg for f in ast.walk(tree) if isinstance(f, (ast.FunctionDef, ast.AsyncFunctionDef, ast.Lambda)) for a in f.args.args + f.args.kwonlyargs}
+    getters = {k: v for k, v in getters.items() if k.split(".")[0] not in stored}
+
+    def as_lambda(e):
+        if not (isinstance(e, ast.Call) and dotted(e.func) in getters and len(e.args) == 1 and not e.keywords and isinstance(e.args[0], ast.Constant)):
+            return None
+        c = e.args[0].value
+        x = ast.Name(id="x__item", ctx=ast.Load())
+        if getters[dotted(e.func)] == "itemgetter" and isinstance(c, (int, str)) and not isinstance(c, bool):
+            body = ast.Subscript(value=x, slice=ast.Constant(value=c), ctx=ast.Load())
+        elif getters[dotted(e.func)] == "attrgetter" and isinstance(c, str) and c.isidentifier():
+            body = ast.Attribute(value=x, attr=c, ctx=ast.Load())
+        else:
+            return None
+        return ast.copy_location(ast.Lambda(args=ast.arguments(posonlyargs=[], args=[ast.arg(arg="x__item")], vararg=None, kwonlyargs=[], kw_defaults=[], kwarg=None,
+                                                               defaults=[]), body=body), e)
+    for c in [c for c in ast.walk(tree) if isinstance(c, ast.Call)]:
+        fname = dotted(c.func) or (c.func.attr if isinstance(c.func, ast.Attribute) else "")
+        if fname in _HIGHER_ORDER_FIRST and c.args:
+            lam = as_lambda(c.args[0])
+            if lam is not None:
+                c.args[0] = lam
+        if fname in ("sorted", "min", "max", "itertools.groupby", "groupby", "SortedSet", "SortedList", "SortedDict") or (isinstance(c.func, ast.Attribute) and c.func.attr == "sort"):
+            for k in c.keywords:
+                if k.arg == "key":
+                    lam = as_lambda(k.value)
+                    if lam is not None:
+                        k.value = lam
+    ast.fix_missing_locations(tree)
+
+
+def _mapped_generators(tree: ast.AST):
+    """a comprehension generator `for v in map(lambda p: E, X)` with v a plain name, E a plain read of p (p, p[c], p.a, chains of those), one
+    iterable: v is E(p) for each p of X in order, so the generator is written `for p in X` and v replaced by E in the conditions, the later
+    generators and the element.  A `map(lambda p: E, X)` that is the sole argument of a call is the generator expression `(E for p in X)`."""
+    import copy as _copy
+
+    def plain(e, p):
+        while isinstance(e, (ast.Subscript, ast.Attribute)):
+            if isinstance(e, ast.Subscript) and not isinstance(e.slice, ast.Constant):
+                return False
+            e = e.value
+        return isinstance(e, ast.Name) and e.id == p
+
+    def simple_map(it):
+        if not (isinstance(it, ast.Call) and isinstance(it.func, ast.Name) and it.func.id == "map" and len(it.args) == 2 and not it.keywords and
+                isinstance(it.args[0], ast.Lambda)):
+            return None
+        lam = it.args[0]
+        a = lam.args
+        if len(a.args) != 1 or a.vararg or a.kwarg or a.kwonlyargs or a.defaults or a.posonlyargs or not plain(lam.body, a.args[0].arg):
+            return None
+        return a.args[0].arg, lam.body, it.args[1]
+    for comp in [n for n in ast.walk(tree) if isinstance(n, (ast.ListComp, ast.SetComp, ast.GeneratorExp, ast.DictComp))]:
+        for gi, g in enumerate(comp.generators):
+            m = simple_map(g.iter)
+            if m is None or not isinstance(g.target, ast.Name):
+                continue
+            p, body, X = m
+            v = g.target.id
+            others = {x.id for x in ast.walk(comp) if isinstance(x, ast.Name)} - {v}
+            inside_lambda = {x.id for x in ast.walk(g.iter.args[0]) if isinstance(x, ast.Name)}
+            if p in (others - inside_lambda) or p == v or any(isinstance(x, (ast.Lambda, ast.ListComp, ast.SetComp, ast.GeneratorExp, ast.DictComp)) and x is not comp and
+                                                              v in {y.id for y in ast.walk(x) if isinstance(y, ast.Name)} and x is not g.iter.args[0] for x in ast.walk(comp)):
+                continue
+
+            class R(ast.NodeTransformer):
+                def visit_Name(self, n):
+                    if n.id == v and isinstance(n.ctx, ast.Load):
+                        return ast.copy_location(_copy.deepcopy(body), n)
+                    return n
+            g.iter = X
+            g.target = ast.copy_location(ast.Name(id=p, ctx=ast.Store()), g.target)
+            g.ifs = [R().visit(c) for c in g.ifs]
+            for g2 in comp.generators[gi + 1:]:
+                g2.iter = R().visit(g2.iter)
+                g2.ifs = [R().visit(c) for c in g2.ifs]
+            if isinstance(comp, ast.DictComp):
+                comp.key, comp.value = R().visit(comp.key), R().visit(comp.value)
+            else:
+                comp.elt = R().visit(comp.elt)
+    for c in [c for c in ast.walk(tree) if isinstance(c, ast.Call)]:
+        if len(c.args) == 1 and not c.keywords:
+            m = simple_map(c.args[0])
+            if m is not None:
+                p, body, X = m
+                c.args[0] = ast.copy_location(ast.GeneratorExp(elt=body, generators=[ast.comprehension(target=ast.Name(id=p, ctx=ast.Store()), iter=X, ifs=[], is_async=0)]), c.args[0])
+    ast.fix_missing_locations(tree)
+
+
+def _enumerate_start_to_zero(tree: ast.AST):
+    """`for i, t in enumerate(X, c)` / `enumerate(X, start=c)` with c an int literal, i a plain name that the body does not rebind and nothing
+    outside the loop reads: i is (position + c), so the loop is written over `enumerate(X)` with every read of i replaced by `i + c`."""
+    for fn in [n for n in ast.walk(tree) if isinstance(n, (ast.FunctionDef, ast.AsyncFunctionDef))]:
+        for loop in [n for n in ast.walk(fn) if isinstance(n, ast.For)]:
+            it = loop.iter
+            if not (isinstance(it, ast.Call) and isinstance(it.func, ast.Name) and it.func.id == "enumerate" and it.args and
+                    isinstance(loop.target, ast.Tuple) and len(loop.target.elts) == 2 and isinstance(loop.target.elts[0], ast.Name)):
+                continue
+            start = it.args[1] if len(it.args) == 2 and not it.keywords else \
+                it.keywords[0].value if len(it.args) == 1 and len(it.keywords) == 1 and it.keywords[0].arg == "start" else None
+            if not (isinstance(start, ast.Constant) and type(start.value) is int and start.value != 0):
+                continue
+            i = loop.target.elts[0].id
+            inside = {id(x) for b in loop.body for x in ast.walk(b)}
+            occ = [x for x in ast.walk(fn) if isinstance(x, ast.Name) and x.id == i and x is not loop.target.elts[0]]
+            if any(id(x) not in inside or not isinstance(x.ctx, ast.Load) for x in occ) or i in {x.id for x in ast.walk(loop.target.elts[1]) if isinstance(x, ast.Name)}:
+                continue
+            if any(isinstance(x, (ast.Lambda, ast.FunctionDef)) for b in loop.body for x in ast.walk(b)):
+                continue
+            c = start.value
+
+            class R(ast.NodeTransformer):
+                def visit_Name(self, n):
+                    if n.id == i and isinstance(n.ctx, ast.Load):
+                        return ast.copy_location(ast.BinOp(left=ast.Name(id=i, ctx=ast.Load()), op=ast.Add(), right=ast.Constant(value=c)), n)
+                    return n
+            loop.body = [R().visit(b) for b in loop.body]
+            loop.orelse = [b for b in loop.orelse]
+            it.args = it.args[:1]
+            it.keywords = []
+    ast.fix_missing_locations(tree)
+
+
+def _chained_generators(tree: ast.AST):
+    """a comprehension generator `for T in itertools.chain.from_iterable(<E for v in X ...>)` walks, for each v of X in order, the elements of E in
+    order: it is written as the generators `for v in X ... for T in E`.  A local bound once to such a chain and read only as the first iterable of a
+    comprehension in the next statement (where a comprehension evaluates its first iterable at once) is replaced by the chain first."""
+    if not isinstance(tree, ast.Module):
+        return
+    spell = set()
+    for s in tree.body:
+        if isinstance(s, ast.Import):
+            spell |= {f"{al.asname or al.name}.chain.from_iterable" for al in s.names if al.name == "itertools"}
+        elif isinstance(s, ast.ImportFrom) and s.module == "itertools" and s.level == 0:
+            spell |= {f"{al.asname or al.name}.from_iterable" for al in s.names if al.name == "chain"}
+    stored = {x.id for x in ast.walk(tree) if isinstance(x, ast.Name) and isinstance(x.ctx, (ast.Store, ast.Del))}
+    spell = {sp for sp in spell if sp.split(".")[0] not in stored}
+    if not spell:
+        return
+
+    def is_chain(e):
+        return isinstance(e, ast.Call) and dotted(e.func) in spell and len(e.args) == 1 and not e.keywords and \
+            isinstance(e.args[0], (ast.GeneratorExp, ast.ListComp)) and not any(isinstance(x, (ast.Yield, ast.Await, ast.NamedExpr)) for x in ast.walk(e))
+    for fn in [n for n in ast.walk(tree) if isinstance(n, (ast.FunctionDef, ast.AsyncFunctionDef))]:
+        for node in ast.walk(fn):
+            for fld in ("body", "orelse", "finalbody"):
+                blk = getattr(node, fld, None)
+                if not isinstance(blk, list) or len(blk) < 2 or not isinstance(blk[0], ast.stmt):
+                    continue
+                k = 0
+                while k + 1 < len(blk):
+                    st, nxt = blk[k], blk[k + 1]
+                    k += 1
+                    if not (isinstance(st, ast.Assign) and len(st.targets) == 1 and isinstance(st.targets[0], ast.Name) and is_chain(st.value) and getattr(st, "ann", None) is None):
+                        continue
+                    t = st.targets[0].id
+                    occ = [x for x in ast.walk(fn) if isinstance(x, ast.Name) and x.id == t and x is not st.targets[0]]
+                    firsts = [c.generators[0] for c in ast.walk(nxt) if isinstance(c, (ast.ListComp, ast.SetComp, ast.GeneratorExp, ast.DictComp)) and
+                              isinstance(c.generators[0].iter, ast.Name) and c.generators[0].iter.id == t]
+                    if len(occ) != 1 or len(firsts) != 1 or not isinstance(nxt, (ast.Assign, ast.Return, ast.Expr)):
+                        continue
+                    # nothing may be evaluated between the two: the comprehension is the statement's value, or the only argument of the plain call that is
+                    v_ = nxt.value
+                    if isinstance(v_, ast.Call) and isinstance(v_.func, ast.Name) and len(v_.args) == 1 and not v_.keywords:
+                        v_ = v_.args[0]
+                    if not (isinstance(v_, (ast.ListComp, ast.SetComp, ast.GeneratorExp, ast.DictComp)) and v_.generators[0] is firsts[0]):
+                        continue
+                    firsts[0].iter = st.value
+                    k -= 1
+                    del blk[k]
+    for comp in [n for n in ast.walk(tree) if isinstance(n, (ast.ListComp, ast.SetComp, ast.GeneratorExp, ast.DictComp))]:
+        gi = 0
+        while gi < len(comp.generators):
+            g = comp.generators[gi]
+            if is_chain(g.iter) and not g.is_async:
+                inner = g.iter.args[0]
+                bound_inner = {x.id for ig in inner.generators for x in ast.walk(ig.target) if isinstance(x, ast.Name)}
+                others = {x.id for x in ast.walk(comp) if isinstance(x, ast.Name)} - {x.id for x in ast.walk(inner) if isinstance(x, ast.Name)}
+                if not (bound_inner & others) and not (bound_inner & {x.id for x in ast.walk(g.target) if isinstance(x, ast.Name)}):
+                    new_gens = list(inner.generators) + [ast.comprehension(target=g.target, iter=inner.elt, ifs=g.ifs, is_async=0)]
+                    comp.generators[gi:gi + 1] = new_gens
+                    gi += len(new_gens)
+                    continue
+            gi += 1
     ast.fix_missing_locations(tree)
 
 
@@ -1242,6 +1501,29 @@ def _inside_try(stmts, node: ast.AST) -> bool:
     return False
 
 
+_NOT_ATTRIBUTE_ERRORS = {"ValueError", "IndexError", "KeyError", "ZeroDivisionError", "StopIteration", "ImportError", "OverflowError", "AssertionError", "OSError",
+                         "FileNotFoundError", "NotImplementedError", "UnicodeError"}
+
+
+def _try_may_catch_attribute_read(stmts, node: ast.AST) -> bool:
+    """`node` lies in a try statement (within `stmts`) that could catch what a plain attribute read raises (AttributeError): it is in the try body
+    and some handler is bare or names anything but exception classes unrelated to AttributeError - or it lies in another part of a try statement
+    (kept conservative)."""
+    for s in stmts:
+        for t in ast.walk(s):
+            if not (isinstance(t, ast.Try) and any(node is x for x in ast.walk(t))):
+                continue
+            if not any(node is x for b in t.body for x in ast.walk(b)):
+                return True
+            for h in t.handlers:
+                types = [h.type] if h.type is not None and not isinstance(h.type, ast.Tuple) else list(h.type.elts) if h.type is not None else [None]
+                for ty in types:
+                    nm = ty.id if isinstance(ty, ast.Name) else ty.attr if isinstance(ty, ast.Attribute) else None
+                    if nm not in _NOT_ATTRIBUTE_ERRORS:
+                        return True
+    return False
+
+
 def _split_live_ranges(tree: ast.AST):
     """a plain local bound by several `name = value` statements whose live ranges are disjoint (every read of the name lies after exactly one of
     those statements, in the same block or nested in it, and none of the statements lies in the range of another) is several variables
@@ -1314,6 +1596,24 @@ def _split_live_ranges(tree: ast.AST):
                         ld.id = new
 
 
+_FRESH_CONTAINER_METHODS = {"list": {"append", "extend", "insert", "pop", "index", "count"}, "set": {"add", "update", "discard"},
+                            "dict": {"get", "setdefault", "update", "pop", "items", "keys", "values"}}
+
+
+def _method_of_fresh_container(fn: ast.AST, read: ast.Attribute, stores: Dict[str, int]) -> bool:
+    """`X.m` with X a local bound once, to a list / set / dict display or an argument-less list() / set() / dict(), and m a method of that builtin
+    type: the read cannot raise, wherever it is evaluated"""
+    if not isinstance(read.value, ast.Name) or stores.get(read.value.id) != 1:
+        return False
+    for n in ast.walk(fn):
+        if isinstance(n, ast.Assign) and len(n.targets) == 1 and isinstance(n.targets[0], ast.Name) and n.targets[0].id == read.value.id:
+            v = n.value
+            kind = "list" if isinstance(v, (ast.List, ast.ListComp)) else "set" if isinstance(v, (ast.Set, ast.SetComp)) else "dict" if isinstance(v, (ast.Dict, ast.DictComp)) else \
+                v.func.id if isinstance(v, ast.Call) and isinstance(v.func, ast.Name) and v.func.id in _FRESH_CONTAINER_METHODS and not v.keywords else None
+            return kind is not None and read.attr in _FRESH_CONTAINER_METHODS[kind]
+    return False
+
+
 def _propagate_field_reads(tree: ast.AST, computed: Set[str] = frozenset()):
     """`a = b.f.g` (a plain local bound once; b a name that is not rebound while a is live; no store to an attribute f / g anywhere in the
     function): every later read of a in the same block (or nested in it) is the field read itself, so a is replaced and the assignment dropped."""
@@ -1373,7 +1673,7 @@ def _propagate_field_reads(tree: ast.AST, computed: Set[str] = frozenset()):
                         if not reads or any(id(x) not in inside for x in reads):
                             continue
                         # an attribute read can raise: it is never moved into a try block (a handler there would start catching it)
-                        if isinstance(st.value, ast.Attribute) and any(_inside_try(rest, x) for x in reads):
+                        if isinstance(st.value, ast.Attribute) and any(_try_may_catch_attribute_read(rest, x) for x in reads) and not _method_of_fresh_container(fn, st.value, stores):
                             continue
                         val = st.value
 
@@ -1715,6 +2015,35 @@ def _enumerate_to_index_loop(L: ast.For):
     ast.fix_missing_locations(L)
 
 
+def _loop_targets_dead_outside(fn: ast.AST, loop: ast.For) -> bool:
+    """no name bound by the targets of `loop` (and of the loops nested in it) is read outside the loop, other than inside another loop /
+    comprehension that binds it itself: turning the loop into a comprehension (whose targets are local to it) then loses no binding"""
+    names = set()
+    for L in ast.walk(loop):
+        if isinstance(L, ast.For):
+            names |= {x.id for x in ast.walk(L.target) if isinstance(x, ast.Name)}
+    inside = {id(x) for x in ast.walk(loop)}
+    rebound = set()
+    for L in ast.walk(fn):
+        if id(L) in inside:
+            continue
+        if isinstance(L, ast.For):
+            own = {x.id for x in ast.walk(L.target) if isinstance(x, ast.Name)}
+            for b in L.body:
+                for x in ast.walk(b):
+                    if isinstance(x, ast.Name) and x.id in own:
+                        rebound.add(id(x))
+        elif isinstance(L, (ast.ListComp, ast.SetComp, ast.DictComp, ast.GeneratorExp)):
+            own = {x.id for g in L.generators for x in ast.walk(g.target) if isinstance(x, ast.Name)}
+            for x in ast.walk(L):
+                if isinstance(x, ast.Name) and x.id in own:
+                    rebound.add(id(x))
+    for x in ast.walk(fn):
+        if isinstance(x, ast.Name) and x.id in names and isinstance(x.ctx, ast.Load) and id(x) not in inside and id(x) not in rebound:
+            return False
+    return True
+
+
 def _collecting_nest(st, nxt):
     """x = [] | list() | set()  followed by  for..: [for..:] [if c: continue]* [if c:] x.append(e) | x.add(e)   ->   x = [e for .. for .. if ..] / {..}"""
     if not (isinstance(st, ast.Assign) and len(st.targets) == 1 and isinstance(st.targets[0], ast.Name) and isinstance(nxt, ast.For)):
@@ -1901,9 +2230,14 @@ def normalise_tree(tree: ast.AST, computed: Set[str] = frozenset(), records: Opt
     _format_calls_to_fstrings(tree)
     _simplify_not(tree)
     _function_refs_to_lambdas(tree)
+    _operator_getters_to_lambdas(tree)
+    _mapped_generators(tree)
+    _enumerate_start_to_zero(tree)
+    _chained_generators(tree)
     if signatures:
         _keywords_to_positional(tree, signatures)
     _flag_loops_to_for_else(tree)
+    _keys_loops_to_items(tree)
     _canonical_comparisons(tree)
     _canonical_statements(tree)
     _split_live_ranges(tree)
